@@ -70,6 +70,9 @@ pub struct Case {
     /// the incoming-window of the listener's session (small: it states its session counters in a flow every
     /// window/2 transfers it takes in)
     pub listener_window: u32,
+    /// the credit the listener's receiving links grant (set by the application right after the attach; `None`:
+    /// the library's default)
+    pub listener_credit: Option<u32>,
 }
 
 fn ref_json(r: &TxnRef) -> J {
@@ -90,7 +93,7 @@ fn ref_from(j: &J) -> TxnRef {
 
 impl Case {
     pub fn to_json(&self) -> J {
-        json!({"ctrl_links": self.ctrl_links, "data_links": self.data_links, "interleave": self.interleave, "repeat_tag": self.repeat_tag, "listener_window": self.listener_window, "ops": self.ops.iter().map(|o| match o {
+        json!({"ctrl_links": self.ctrl_links, "data_links": self.data_links, "interleave": self.interleave, "repeat_tag": self.repeat_tag, "listener_window": self.listener_window, "listener_credit": self.listener_credit, "ops": self.ops.iter().map(|o| match o {
             Op::Declare { ctrl } => json!({"declare": ctrl}),
             Op::Post { link, txn, frames, settled, state_on_all, abort_first } => json!({"post": link, "txn": ref_json(txn), "frames": frames, "settled": settled, "state_on_all": state_on_all, "abort_first": abort_first}),
             Op::Discharge { ctrl, txn, fail } => json!({"discharge": ctrl, "txn": ref_json(txn), "fail": fail}),
@@ -121,7 +124,7 @@ impl Case {
             }
         }).collect();
         let interleave = j.get("interleave").and_then(|x| x.as_array()).map(|a| a.iter().filter_map(|x| x.as_u64()).map(|x| x as usize).collect()).unwrap_or_default();
-        Some(Case { ctrl_links: j.get("ctrl_links")?.as_u64()? as usize, data_links: j.get("data_links")?.as_u64()? as usize, ops, interleave, repeat_tag: j.get("repeat_tag").and_then(|x| x.as_bool()).unwrap_or(false), listener_window: j.get("listener_window").and_then(|x| x.as_u64()).unwrap_or(2048) as u32 })
+        Some(Case { ctrl_links: j.get("ctrl_links")?.as_u64()? as usize, data_links: j.get("data_links")?.as_u64()? as usize, ops, interleave, repeat_tag: j.get("repeat_tag").and_then(|x| x.as_bool()).unwrap_or(false), listener_window: j.get("listener_window").and_then(|x| x.as_u64()).unwrap_or(2048) as u32, listener_credit: j.get("listener_credit").and_then(|x| x.as_u64()).map(|x| x as u32) })
     }
 }
 
@@ -187,7 +190,7 @@ pub fn gen_case(rng: &mut Rng, first_frame_state_only: bool) -> Case {
         };
         ops.push(op);
     }
-    Case { ctrl_links, data_links, ops, interleave: vec![], repeat_tag: rng.chance(1, 3), listener_window: *rng.pick(&[2048u32, 2048, 4, 6, 16]) }
+    Case { ctrl_links, data_links, ops, interleave: vec![], repeat_tag: rng.chance(1, 3), listener_window: *rng.pick(&[2048u32, 2048, 4, 6, 16]), listener_credit: None }
 }
 
 // ------------------------------------------------------------------------------- the run
@@ -209,6 +212,9 @@ pub struct Observed {
     /// per flow the listener sent while the script waited for an answer: (transfers it had certainly taken in
     /// by then, the next-incoming-id the flow states; the script's first transfer has id 0)
     pub flows: Vec<(u32, u32)>,
+    /// per data link, once everything has settled: the deliveries the script began on it, and the link state the
+    /// listener's last flow for it stated (delivery-count, link-credit)
+    pub link_credit_view: Vec<(u32, Option<(u32, u32)>)>,
 }
 
 fn label_body(label: u32, size: usize) -> Vec<u8> {
@@ -233,6 +239,10 @@ struct Script {
     lower: u32,
     op_start: u32,
     flows: Vec<(u32, u32)>,
+    /// the last link state a flow of the listener stated per handle: (delivery-count, link-credit)
+    link_flows: std::collections::HashMap<u32, (u32, u32)>,
+    /// deliveries begun per handle of ours (first transfers written)
+    deliveries: std::collections::HashMap<u32, u32>,
     repeat_tag: bool,
     frame_log: Vec<(usize, String)>,
     txn_names: Vec<Vec<u8>>,
@@ -241,6 +251,9 @@ struct Script {
 impl Script {
     /// `handle:txn:tag:more:aborted` of a transfer about to be written, for the routing model
     fn note(&mut self, t: &fe2o3_amqp_types::performatives::Transfer, op: usize) {
+        if t.delivery_id.is_some() {
+            *self.deliveries.entry(t.handle.0).or_insert(0) += 1;
+        }
         let txn = match &t.state {
             Some(DeliveryState::TransactionalState(st)) => {
                 let b: Vec<u8> = st.txn_id.to_vec();
@@ -350,6 +363,9 @@ impl Script {
                     if let Some(n) = f.next_incoming_id {
                         self.flows.push((self.lower, n));
                     }
+                    if let (Some(h), Some(dc), Some(c)) = (f.handle.as_ref(), f.delivery_count, f.link_credit) {
+                        self.link_flows.insert(h.0, (dc, c));
+                    }
                 }
                 Ok((_, Performative::End(e), _)) => {
                     self.session_gone = Some(e.error.map(|e| format!("{:?}", e.condition)).unwrap_or_else(|| "no-error".into()));
@@ -389,6 +405,7 @@ pub fn run_case(case: &Case) -> Result<Observed, String> {
         let d2 = delivered.clone();
         let n2 = notes.clone();
         let listener_window = case.listener_window.max(2);
+        let listener_credit = case.listener_credit;
         let listener = tokio::spawn(async move {
             let acc = ConnectionAcceptor::new("resource");
             let mut conn = match acc.accept(sio).await {
@@ -415,6 +432,9 @@ pub fn run_case(case: &Case) -> Result<Observed, String> {
                         let n3 = n2.clone();
                         tasks.push(tokio::spawn(async move {
                             let link: usize = r.name().trim_start_matches("data").parse().unwrap_or(99);
+                            if let Some(c) = listener_credit {
+                                let _ = r.set_credit(c).await;
+                            }
                             loop {
                                 match r.recv::<Value>().await {
                                     Ok(d) => {
@@ -465,7 +485,7 @@ pub fn run_case(case: &Case) -> Result<Observed, String> {
             (_, Performative::Begin(_), _) => {}
             (_, other, _) => return Err(format!("expected begin, got {}", summarize(&other, 0))),
         }
-        let mut sc = Script { peer, next_out: 0, ctrl_handles: vec![], data_handles: vec![], tag: 0, session_gone: None, cur_op: 0, lower: 0, op_start: 0, flows: vec![], repeat_tag: case.repeat_tag, frame_log: vec![], txn_names: vec![] };
+        let mut sc = Script { peer, next_out: 0, ctrl_handles: vec![], data_handles: vec![], tag: 0, session_gone: None, cur_op: 0, lower: 0, op_start: 0, flows: vec![], link_flows: Default::default(), deliveries: Default::default(), repeat_tag: case.repeat_tag, frame_log: vec![], txn_names: vec![] };
         // links: control links first
         let mut handle = 0u32;
         for c in 0..case.ctrl_links {
@@ -494,6 +514,9 @@ pub fn run_case(case: &Case) -> Result<Observed, String> {
                 Ok((_, Performative::Flow(f), _)) => {
                     if f.link_credit.unwrap_or(0) > 0 {
                         credited += 1;
+                    }
+                    if let (Some(h), Some(dc), Some(c)) = (f.handle.as_ref(), f.delivery_count, f.link_credit) {
+                        sc.link_flows.insert(h.0, (dc, c));
                     }
                 }
                 Ok(_) => {}
@@ -760,6 +783,16 @@ pub fn run_case(case: &Case) -> Result<Observed, String> {
         let _ = sc.peer.close_politely().await;
         sc.peer.recv_timeout = Duration::from_millis(200);
         let _ = sc.peer.recv_frame().await;
+        if case.listener_credit.is_some() && sc.session_gone.is_none() {
+            // whatever the listener still has to say about its links
+            sc.peer.recv_timeout = Duration::from_millis(150);
+            let _ = sc.wait_disposition(u32::MAX).await;
+            for l in 0..case.data_links {
+                let ours = sc.data_handles[l];
+                let theirs = listener_handle_of.get(&format!("data{}", l)).copied();
+                obs.link_credit_view.push((sc.deliveries.get(&ours).copied().unwrap_or(0), theirs.and_then(|h| sc.link_flows.get(&h).copied())));
+            }
+        }
         obs.frame_log = std::mem::take(&mut sc.frame_log);
         obs.flows = std::mem::take(&mut sc.flows);
         drop(sc);
@@ -953,6 +986,16 @@ pub fn check(case: &Case, obs: &Observed) -> Option<(String, String)> {
     for (lower, nii) in &obs.flows {
         if (nii.wrapping_sub(*lower) as i32) < 0 {
             return Some(("next-incoming-id-misses-withheld-transfers".into(), format!("the listener had taken in the transfers 0..{} when it sent a flow stating next-incoming-id {} (incoming-window of its session {}): the transfers it withholds under a transaction are not counted", lower, nii, case.listener_window)));
+        }
+    }
+    // C09 at a transactional session: once every transaction has been discharged and the application has taken
+    // what there is, a sender that respects the credit can go on (the judged cases leave no transaction open)
+    for (l, (sent, view)) in obs.link_credit_view.iter().enumerate() {
+        if let Some((dc, credit)) = view {
+            let usable = dc.wrapping_add(*credit).wrapping_sub(*sent) as i32;
+            if usable <= 0 {
+                return Some(("link-credit-lost-by-rollback".into(), format!("data link {}: the peer has begun {} deliveries on it, the listener's last flow states delivery-count {} and link-credit {} (granted {:?}): a sender that respects the credit has {} left and nothing will ever raise it — the deliveries discarded by a rollback were never counted by the receiving link", l, sent, dc, credit, case.listener_credit, usable)));
+            }
         }
     }
     let (want_outs, want_snaps) = oracle(case, obs.issued);
@@ -1596,6 +1639,7 @@ pub fn main(opts: &Opts) {
                         interleave: vec![1],
                         repeat_tag: frames == 3 && all_a,
                         listener_window: 2048,
+                        listener_credit: None,
                     });
                 }
             }
@@ -1614,15 +1658,28 @@ pub fn main(opts: &Opts) {
                     ops.push(Op::Post { link: 0, txn: TxnRef::None, frames, settled: false, state_on_all: true, abort_first: false });
                     ops.push(Op::Discharge { ctrl: 0, txn: TxnRef::Slot(0), fail });
                     ops.push(Op::Post { link: 0, txn: TxnRef::None, frames: 2, settled: false, state_on_all: true, abort_first: false });
-                    corpus.push(Case { ctrl_links: 1, data_links: 1, ops, interleave: vec![], repeat_tag: plain_first && frames == 2, listener_window: if more { 4 } else { 2048 } });
+                    corpus.push(Case { ctrl_links: 1, data_links: 1, ops, interleave: vec![], repeat_tag: plain_first && frames == 2, listener_window: if more { 4 } else { 2048 }, listener_credit: None });
                 }
+            }
+        }
+    }
+    if prop == "C09" {
+        corpus.clear();
+        for fail in [Some(false), Some(true)] {
+            for (credit, posts, frames) in [(4u32, 4usize, 1usize), (4, 4, 2), (6, 3, 1), (6, 6, 1), (10, 10, 1)] {
+                let mut ops = vec![Op::Declare { ctrl: 0 }];
+                for _ in 0..posts {
+                    ops.push(Op::Post { link: 0, txn: TxnRef::Slot(0), frames, settled: false, state_on_all: true, abort_first: false });
+                }
+                ops.push(Op::Discharge { ctrl: 0, txn: TxnRef::Slot(0), fail });
+                corpus.push(Case { ctrl_links: 1, data_links: 1, ops, interleave: vec![], repeat_tag: false, listener_window: 2048, listener_credit: Some(credit) });
             }
         }
     }
     let mut route_lines: Vec<String> = vec![];
     let mut route_want: Vec<Vec<char>> = vec![];
     let mut route_cases: Vec<J> = vec![];
-    let n: u64 = if opts.thorough() { 4000 } else { 300 };
+    let n: u64 = if prop == "C09" { 0 } else if opts.thorough() { 4000 } else { 300 };
     for k in 0..(n + corpus.len() as u64) {
         let case = if (k as usize) < corpus.len() { corpus[k as usize].clone() } else { gen_case(&mut rng, k % 4 == 3) };
         if !case.interleave.is_empty() {
